@@ -240,4 +240,7 @@ def check(model, tier):
     payload.r10_3_evaluate_once(ctx)
     optional_rules.r_optional_truthiness(ctx, "R07.9", None, ("_processor.py", "_marker_relation.py", "_relation.py", "iteration/"))
     run.assume("the hooks implemented by the caller evaluate their source truthfully")
+    from ..rules import mutation as _mutation
+
+    _mutation.r09_4_no_shared_mutation(ctx)
     return run
